@@ -127,26 +127,6 @@ func buildQuiet(root string, files map[string][]byte, rootName string) (j kit.JA
 	return j, br
 }
 
-func buildAndJson(root string, files map[string][]byte, rootName string) buildRes {
-	j, br := buildQuiet(root, files, rootName)
-	if br.End != "ok" {
-		return br
-	}
-	b, co := callAcc(&j, "J")
-	if co.Panic != "" {
-		br.End = "panic"
-		br.Panic = co.Panic
-		br.Site = co.Site
-		return br
-	}
-	if co.Err != "" {
-		br.JErr = co.Err
-		return br
-	}
-	br.Sha = sha(b)
-	return br
-}
-
 func serOne(sc *serCase) (out serOut) {
 	out.ID = sc.ID
 	defer func() {
@@ -204,7 +184,7 @@ func serOne(sc *serCase) (out serOut) {
 		}
 		out.End = "ok"
 		for i := 0; i < sc.N; i++ {
-			out.Builds = append(out.Builds, buildAndJson(root, files, sc.Root))
+			out.Builds = append(out.Builds, buildJO(root, files, sc.Root))
 		}
 	case "conc":
 		type proj struct {
